@@ -699,6 +699,14 @@ class ComponentState(object):
         def FinalStateClosure(state, shutdown):
 
             def Setter(e):
+                if shutdown and self.engine.isAlive():
+                    # VV: This is a stale POSTMORTEM update which was emitted before the engine got restarted and
+                    # delivered after finish() subscribed. The engine has been asked to stop but is not dead yet:
+                    # wait for the update that reports its death. (engine.shutdown() would raise, the exception
+                    # would fault the observe_on() operator of the shared state-updates observable and the
+                    # component would never report that it finished)
+                    return
+
                 if self.repeatingDisposable is not None:
                     self.repeatingDisposable.dispose()
 
